@@ -3,6 +3,7 @@ package genwl
 import (
 	"bytes"
 	"fmt"
+	"reflect"
 	"sort"
 
 	"github.com/CrowdStrike/csproto"
@@ -269,8 +270,44 @@ func runC12(cfg *config, res *monitor.Result) {
 					// Range visits exactly the set extensions
 					visited := map[int32]int{}
 					evals++
-					if err := csproto.RangeExtensions(msg, func(_ interface{}, _ string, field int32) error { visited[field]++; return nil }); err != nil {
+					rangeVals := map[int32]interface{}{}
+					if err := csproto.RangeExtensions(msg, func(v interface{}, _ string, field int32) error { visited[field]++; rangeVals[field] = v; return nil }); err != nil {
 						viol("RangeExtensions", "error", "RangeExtensions failed: "+err.Error())
+					}
+					// the value handed to the callback is what the owning runtime's own enumeration API hands out: the value
+					// itself for Google V2 (proto.RangeExtensions), the extension descriptor for Gogo and Google V1 (ExtensionDescs)
+					rtVals := map[int32]interface{}{}
+					if t.pkg.Flavour == "gv2" {
+						proto.RangeExtensions(msg.(proto.Message), func(xt protoreflect.ExtensionType, v interface{}) bool {
+							rtVals[int32(xt.TypeDescriptor().Number())] = v
+							return true
+						})
+					}
+					for _, x := range exts {
+						xd := x.TypeDescriptor()
+						rv, ok := rangeVals[int32(xd.Number())]
+						if !ok {
+							continue
+						}
+						if t.pkg.Flavour != "gv2" {
+							if rv != t.pkg.GenExt[xd.FullName()] {
+								viol("RangeExtensions", "value-differs-from-runtime", fmt.Sprintf("RangeExtensions passed a %T for extension %s, the runtime's ExtensionDescs hands out the registered descriptor", rv, xd.Name()))
+							}
+							continue
+						}
+						gv, ok := rtVals[int32(xd.Number())]
+						if !ok {
+							continue
+						}
+						if reflect.TypeOf(rv) != reflect.TypeOf(gv) {
+							viol("RangeExtensions", "value-type-differs-from-runtime", fmt.Sprintf("RangeExtensions passed a %T for extension %s, the runtime's RangeExtensions passes a %T", rv, xd.Name(), gv))
+							continue
+						}
+						b1, e1 := t.pkg.ExtGoToBytes(xd, rv)
+						b2, e2 := t.pkg.ExtGoToBytes(xd, gv)
+						if e1 != nil || e2 != nil || !bytes.Equal(b1, b2) {
+							viol("RangeExtensions", "value-differs-from-runtime", fmt.Sprintf("RangeExtensions passed another value for extension %s than the runtime's RangeExtensions", xd.Name()))
+						}
 					}
 					for n := range model {
 						if visited[int32(n)] != 1 {
